@@ -153,32 +153,6 @@ mod verif_c07 {
         assert!(it.next().is_none());
         kani::cover!(true);
     }
-    // server side inverse for a query pair: form_urlencoded::parse of "k=" ++ escape(c) yields exactly ("k", c)
-    #[kani::proof]
-    #[kani::unwind(10)]
-    fn form_urlencoded_inverts_escape_ascii() {
-        let b: u8 = kani::any();
-        kani::assume(b < 128);
-        let mut q = [b'k', b'=', b'%', hex(b >> 4), hex(b & 15)];
-        let n = if unreserved(b) {
-            q[2] = b;
-            3
-        } else {
-            5
-        };
-        let mut it = form_urlencoded::parse(&q[..n]);
-        match it.next() {
-            Some((k, v)) => {
-                assert!(k.as_bytes().len() == 1 && k.as_bytes()[0] == b'k');
-                assert!(v.as_bytes().len() == 1 && v.as_bytes()[0] == b);
-                std::mem::forget(k);
-                std::mem::forget(v);
-            }
-            None => assert!(false),
-        }
-        assert!(it.next().is_none());
-        kani::cover!(true);
-    }
 //@@INTERNALS-END
     // ---- per-call structure contracts (pre-state: empty buffer, symbolic in_path) ------------------------
     #[kani::proof]
